@@ -308,8 +308,28 @@ func inspectVisit(obj Object, v *visit) string {
 		return obj.inspectVisit(v)
 	case *Map:
 		return obj.inspectVisit(v)
+	case *Entry:
+		return obj.inspectVisit(v)
+	case *ListIter:
+		return obj.inspectVisit(v)
+	case *MapIter:
+		return obj.inspectVisit(v)
 	}
 	return obj.Inspect()
+}
+
+// An entry and an iterator print the container they came from, which can hold
+// them in turn: the walk goes on with the same record.
+func (e *Entry) inspectVisit(v *visit) string {
+	return fmt.Sprintf("iter_entry(%s, %s)", inspectVisit(e.key, v), inspectVisit(e.value, v))
+}
+
+func (iter *ListIter) inspectVisit(v *visit) string {
+	return fmt.Sprintf("list_iter(%s)", iter.l.inspectVisit(v))
+}
+
+func (iter *MapIter) inspectVisit(v *visit) string {
+	return fmt.Sprintf("map_iter(%s)", iter.m.inspectVisit(v))
 }
 
 func (ls *List) inspectVisit(v *visit) string {
